@@ -116,7 +116,11 @@ def run_op(op):
     try:
         k = op["kind"]
         if k == "parse":
-            m = UBXReader.parse(bytes.fromhex(op["f"]), msgmode=op.get("mode", 0), validate=op.get("validate", 1), parsebitfield=op.get("pbf", 1))
+            if op.get("pos"):
+                # every option positionally, in the documented order
+                m = UBXReader.parse(bytes.fromhex(op["f"]), op.get("mode", 0), op.get("validate", 1), bool(op.get("pbf", 1)))
+            else:
+                m = UBXReader.parse(bytes.fromhex(op["f"]), msgmode=op.get("mode", 0), validate=op.get("validate", 1), parsebitfield=op.get("pbf", 1))
             return digest(m)
         if k == "construct":
             kw = {}
@@ -124,7 +128,10 @@ def run_op(op):
                 # every evaluation gets its OWN copy of list values: the message may keep the caller's list, and the hostile-caller
                 # tainting below would otherwise alter the operation's input for its next evaluation
                 kw[a] = bytes.fromhex(v["hex"]) if isinstance(v, dict) and "hex" in v else (list(v) if isinstance(v, list) else v)
-            m = UBXMessage(bytes([op["cls"]]), bytes([op["id"]]), op["mode"], parsebitfield=op.get("pbf", 1), **kw)
+            if op.get("pos"):
+                m = UBXMessage(op["cls"], op["id"], op["mode"], bool(op.get("pbf", 1)), **kw)
+            else:
+                m = UBXMessage(bytes([op["cls"]]), bytes([op["id"]]), op["mode"], parsebitfield=op.get("pbf", 1), **kw)
             return digest(m)
         if k == "config":
             items = [tuple(x) if isinstance(x, list) else x for x in op["items"]]
@@ -134,7 +141,9 @@ def run_op(op):
             import io
 
             out = []
-            for raw, parsed in UBXReader(io.BytesIO(bytes.fromhex(op["S"])), quitonerror=0, msgmode=op.get("mode", 0)):
+            rdr = (UBXReader(io.BytesIO(bytes.fromhex(op["S"])), op.get("mode", 0), 1, 7, 0, True, 1, 4096, True, None) if op.get("pos")
+                   else UBXReader(io.BytesIO(bytes.fromhex(op["S"])), quitonerror=0, msgmode=op.get("mode", 0)))
+            for raw, parsed in rdr:
                 out.append((bytes(raw), None if parsed is None else digest(parsed)))
             return hashlib.sha256(repr(out).encode()).hexdigest()[:24]
         return "err:unknown-op"
@@ -368,6 +377,16 @@ def attrs(case, cap):
                 m = UBXMessage(bytes([item["cls"]]), bytes([item["id"]]), item["mode"], **kw)
         except Exception:  # noqa: BLE001
             continue
+        # "a UBXMessage after construction": also the message as it comes out of pickle (multiprocessing), copy.deepcopy, copy.copy
+        tw = item.get("twin", 0)
+        if tw:
+            import copy
+            import pickle
+
+            try:
+                m = pickle.loads(pickle.dumps(m)) if tw == 1 else copy.deepcopy(m) if tw == 2 else copy.copy(m)
+            except Exception:  # noqa: BLE001 - not copyable: nothing to probe
+                continue
         before = m.serialize()
         d = [k for k in vars(m)]
         public = [k for k in d if not k.startswith("_")]
